@@ -16,6 +16,7 @@ import keyword
 
 from sympy.utilities.iterables import iterable, flatten
 from sympy.printing.lambdarepr import LambdaPrinter
+from sympy.printing.precedence import PRECEDENCE
 
 
 class mathstr(str):
@@ -688,6 +689,14 @@ def func_builder(res_vals: defaultdict, *mvs, funcname: str) -> CodegenOutput:
     return CodegenOutput(tuple(res_vals.keys()), func)
 
 
+class ReciprocalPrinter(LambdaPrinter):
+    """ Prints negative integer powers as a division, b**(-2) as 1/b**2: integer types of numpy refuse the former. """
+    def _print_Pow(self, expr, **kwargs):
+        if expr.exp.is_Integer and expr.exp.is_negative:
+            return f'1/{self.parenthesize(1 / expr, PRECEDENCE["Pow"])}'
+        return super()._print_Pow(expr, **kwargs)
+
+
 def lambdify(args: dict, exprs: list, funcname: str, dependencies: tuple = None, printer=LambdaPrinter, dummify=False, cse=False):
     """
     Function that turns symbolic expressions into Python functions. Heavily inspired by
@@ -731,7 +740,7 @@ def lambdify(args: dict, exprs: list, funcname: str, dependencies: tuple = None,
     :return: Function that represents that can be used to calculate the values of exprs.
     """
     if printer is LambdaPrinter:
-        printer = LambdaPrinter(
+        printer = ReciprocalPrinter(
             {'fully_qualified_modules': False, 'inline': True,
              'allow_unknown_functions': True,
              'user_functions': {}}
